@@ -522,6 +522,22 @@ Definition run_reset := run_two_sends true.
 (* Send(ms1) and Send(ms2) called concurrently on one dialled Client, serialised by sendMutex *)
 Definition run_serialised := run_two_sends false.
 
+(* nil entries of a batch: SendWithSMTPClient skips them silently (no sendSingleMsg, no error, not counted in the
+   joined error); the results stay aligned with the positions of the batch.  A batch with nil entries is a list of
+   option msg: the run is the run of its non-nil messages, [align] puts the results back at their positions. *)
+Definition somes (oms : list (option msg)) : list msg := flat_map opt_list oms.
+
+Fixpoint align (oms : list (option msg)) (rs : list mres) : list mres :=
+  match oms with
+  | [] => []
+  | None :: t => mkRes None false None :: align t rs
+  | Some _ :: t =>
+      match rs with
+      | r :: rt => r :: align t rt
+      | [] => mkRes None false None :: align t []
+      end
+  end.
+
 Definition run_case (X : expects) (F : fixes) (cfg : config) (caps caps_tls : list ext) (script : list decision)
            (ms : list msg) (render : msg -> list bytes * option err) : outcome :=
   dial_and_send X F cfg render ms (world_init caps caps_tls script).
